@@ -3,7 +3,7 @@
    (Unix(), Nanosecond()) of the value — the only thing the Go code reads from it after
    UTC()) and Msgp.dec_eventtime (EventTime.UnmarshalBinary followed by time.Unix's
    normalisation).  Only statements, [exact], Print Assumptions, examples. *)
-From FF Require Import model.Bytes model.Msgp model.Wf proofs.EventTime_Proofs.
+From FF Require Import model.Bytes model.Msgp model.Forward model.Wf proofs.EventTime_Proofs proofs.Carrier_Proofs.
 
 (* every instant whose seconds fit 32 unsigned bits survives encode/decode to the nanosecond *)
 Theorem C19_roundtrip : forall s n, wf_instant (s, n) = true -> dec_eventtime (et_payload s n) = Ok (s, n).
@@ -37,6 +37,40 @@ Theorem C19_reencode : forall d s n, length d = 8%nat -> unbe (skipn 4 d) < nsec
   dec_eventtime d = Ok (s, n) -> et_payload s n = d.
 Proof. exact et_reencode. Qed.
 Print Assumptions C19_reencode.
+
+(* the length rule through the decoders that carry a timestamp: whatever framing msgpack has for an
+   extension (fixext, ext8, ext16, ext32 -- ext_parts reads them all), an entry or a MessageExt that
+   decodes has met a type-0 extension of exactly eight bytes, and one of any other length (or type)
+   in that place makes the decoder fail, on both paths *)
+Theorem C19_entry_timestamp_is_8_bytes : forall p bs e r, U_entry p bs = Ok (e, r) ->
+  exists r0 d r1, rd_arr_hdr bs = Ok (2, r0) /\ ext_parts r0 = Ok (0, d, r1) /\ length d = 8%nat /\
+                  dec_eventtime d = Ok (e_ts e).
+Proof. exact entry_timestamp_ext. Qed.
+Print Assumptions C19_entry_timestamp_is_8_bytes.
+
+Theorem C19_entry_rejects_other_lengths : forall p bs r0 ty d r1,
+  rd_arr_hdr bs = Ok (2, r0) -> ext_parts r0 = Ok (ty, d, r1) -> (length d <> 8%nat \/ ty <> 0) ->
+  exists x, U_entry p bs = Err x.
+Proof. exact entry_rejects_other_lengths. Qed.
+Print Assumptions C19_entry_rejects_other_lengths.
+
+Theorem C19_message_ext_timestamp_is_8_bytes : forall p prev bs m r, U_message_ext p prev bs = Ok (m, r) ->
+  exists sz r0 tag r1 d r2, rd_arr_hdr bs = Ok (sz, r0) /\ rd_str r0 = Ok (tag, r1) /\
+     ext_parts r1 = Ok (0, d, r2) /\ length d = 8%nat /\ dec_eventtime d = Ok (x_ts m).
+Proof. exact message_ext_timestamp_ext. Qed.
+Print Assumptions C19_message_ext_timestamp_is_8_bytes.
+
+Theorem C19_message_ext_rejects_other_lengths : forall p prev bs sz r0 tag r1 ty d r2,
+  rd_arr_hdr bs = Ok (sz, r0) -> rd_str r0 = Ok (tag, r1) -> ext_parts r1 = Ok (ty, d, r2) ->
+  (length d <> 8%nat \/ ty <> 0) -> exists x, U_message_ext p prev bs = Err x.
+Proof. exact message_ext_rejects_other_lengths. Qed.
+Print Assumptions C19_message_ext_rejects_other_lengths.
+
+Theorem C19_forward_timestamps_are_8_bytes : forall p prev bs m r, U_forward p prev bs = Ok (m, r) ->
+  Forall (fun e => exists bs' r0 d r1, rd_arr_hdr bs' = Ok (2, r0) /\ ext_parts r0 = Ok (0, d, r1) /\
+                     length d = 8%nat /\ dec_eventtime d = Ok (e_ts e)) (f_entries m).
+Proof. exact forward_timestamps_8_bytes. Qed.
+Print Assumptions C19_forward_timestamps_are_8_bytes.
 
 (* non-vacuity: boundary instants are in the domain and round-trip by computation *)
 Example C19_nonvacuous :
